@@ -236,6 +236,11 @@ FALSE = ('const', False)
 def f_atoms(f, acc=None):
     if acc is None:
         acc = []
+    if f[0] == 'pc':
+        for a in f[1].atoms:
+            if a not in acc:
+                acc.append(a)
+        return acc
     if f[0] == 'atom':
         if f[1] not in acc:
             acc.append(f[1])
@@ -251,6 +256,8 @@ def f_eval(f, env):
     t = f[0]
     if t == 'const':
         return f[1]
+    if t == 'pc':
+        return f[1].eval(env)
     if t == 'atom':
         return env[f[1]]
     if t == 'not':
@@ -279,6 +286,108 @@ def f_equiv(f, g, atoms=None, constraint=None):
         if f_eval(f, env) != f_eval(g, env):
             return False, env
     return True, None
+
+
+class PathCond(object):
+    """exact path condition of a CFG block within the current loop iteration: the disjunction over all
+    acyclic paths from the function entry (back edges removed) of the conjunction of the branch conditions
+    taken.  Evaluated by dynamic programming over the DAG for a given valuation of the atoms, so
+    short-circuit operators and early exits are handled without conjoining alternative paths."""
+
+    def __init__(self, cfg, target, atomize):
+        self.cfg = cfg
+        self.target = target
+        fn = cfg.fn
+        blocks = cfg.blocks
+        # forward DAG edges (skip back edges: successor dominates source)
+        self.preds = {}
+        region = set()
+        work = [target]
+        dag_pred = {}
+        for b in blocks.values():
+            for ix, s in enumerate(b.succ):
+                if s is None:
+                    continue
+                if s != b.id and cfg.block_dominates(s, b.id):
+                    continue  # back edge
+                if s == b.id:
+                    continue
+                dag_pred.setdefault(s, []).append((b.id, ix))
+        while work:
+            b = work.pop()
+            if b in region:
+                continue
+            region.add(b)
+            for (p, ix) in dag_pred.get(b, ()):
+                work.append(p)
+        self.region = region
+        self.dag_pred = {b: [(p, ix) for (p, ix) in dag_pred.get(b, ()) if p in region] for b in region}
+        self.cond = {}
+        self.atoms = []
+        for b in region:
+            blk = blocks[b]
+            live = [s for s in blk.succ if s is not None]
+            if len(blk.succ) == 2 and len(live) >= 1 and blk.succ[0] != blk.succ[1]:
+                c = cfg.effective_cond(blk)
+                f = None
+                if c is not None:
+                    f = formula(c, lambda leaf: atomize(leaf) or f_atom(('opaque', leaf.i)))
+                if f is None:
+                    f = f_atom(('opaque-branch', b))
+                self.cond[b] = f
+                for a in f_atoms(f):
+                    if a not in self.atoms:
+                        self.atoms.append(a)
+            elif len(blk.succ) > 2:
+                for ix in range(len(blk.succ)):
+                    a = ('switch', b, ix)
+                    if a not in self.atoms:
+                        self.atoms.append(a)
+        # only keep atoms of branches that actually matter (both outcomes stay in region is irrelevant: keep all)
+
+    def eval(self, env):
+        memo = {}
+        cfg = self.cfg
+
+        def val(b):
+            if b in memo:
+                return memo[b]
+            memo[b] = False
+            if b == cfg.entry or not self.dag_pred.get(b):
+                r = (b == cfg.entry) or not self.dag_pred.get(b)
+                # blocks without DAG predecessors other than entry are unreachable; treat entry as true
+                r = (b == cfg.entry)
+                memo[b] = r
+                return r
+            r = False
+            for (p, ix) in self.dag_pred[b]:
+                if not val(p):
+                    continue
+                f = self.cond.get(p)
+                blk = cfg.blocks[p]
+                if f is not None:
+                    c = f_eval(f, env)
+                    if (ix == 0) == bool(c):
+                        r = True
+                        break
+                elif len(blk.succ) > 2:
+                    if env.get(('switch', p, ix), True):
+                        r = True
+                        break
+                else:
+                    r = True
+                    break
+            memo[b] = r
+            return r
+        return val(self.target)
+
+
+def path_condition(cfg, node, atomize):
+    """formula node ('pc', PathCond) for the block that evaluates `node`"""
+    p = cfg.pos_of(node)
+    if p is None:
+        return TRUE
+    return ('pc', PathCond(cfg, p[0], atomize))
 
 
 def formula(n, atomize):
